@@ -53,7 +53,8 @@ func (h *Helium) Subscribe(ctx context.Context) (uuid.UUID, <-chan types.Service
 	ID := uuid.New()
 	key := ID.ID()
 	subCtx, cancel := context.WithCancel(ctx)
-	ch := make(chan types.ServiceStatus)
+	// one slot per subscriber: dispatch never waits for a subscriber, see dispatch
+	ch := make(chan types.ServiceStatus, 1)
 	h.subs.Set(key, entry{
 		ch:     ch,
 		ctx:    subCtx,
@@ -124,10 +125,15 @@ func (h *Helium) dispatch(ctx context.Context, status types.ServiceStatus) {
 				log.WithFunc("helium.dispatch").Errorf(ctx, errors.Errorf("%+v", err), "dispatch %+v failed", key)
 			}
 		}()
+		// never block here: one subscriber that stopped reading must not hold up the pushes to
+		// all the others. A subscriber that has not yet taken the previous status out of its
+		// slot misses this push and gets the latest status with the next one.
 		select {
 		case val.ch <- status:
 			return
 		case <-val.ctx.Done():
+			return
+		default:
 			return
 		}
 	}
